@@ -16,7 +16,7 @@ COMMON_MIR = [
 
 PROPS = {
     "C03": {
-        "mirsym": ["counter_verify", "fn_mocker_verify", "teardown", "teardown_wrappers", "assembler", "builder_chains"],
+        "mirsym": ["counter_verify", "fn_mocker_verify", "teardown", "teardown_wrappers", "assembler", "builder_chains", "tuples"],
         "bounds": {"quick": "CallCounter::verify: all 2^64 x 2^64 x 3 (minimum, actual, exactness); FnMocker::verify: 2 patterns, arbitrary counters; teardown: method table iteration unrolled to <=3"},
         "assumptions": COMMON_KANI + COMMON_MIR,
         "outside": ["rendered message text", "minimum+1 overflow for n_times(usize::MAX).then()"],
@@ -30,7 +30,7 @@ PROPS = {
         "outside": ["K > 4 patterns", "the matching! macro (C06)"],
     },
     "C02": {
-        "mirsym": ["builder_chains", "call_path", "eval_dyn", "eval_generic", "output_containers", "schedules"],
+        "mirsym": ["builder_chains", "call_path", "eval_dyn", "eval_generic", "output_containers", "schedules", "generated_forwarding"],
         "bounds": {"quick": "segment lookup: S<=4 segments, repeat counts all values < 2^60 including 0, call index all 2^64; next_responder from an arbitrary counter value"},
         "assumptions": COMMON_KANI + COMMON_MIR + ["builder chains: IntoReturn / IntoReturnOnce / IntoReturner conversions are environment calls that record which conversion ran (their behaviour is decided under C12/C17)"],
         "outside": ["sum of repeat counts >= 2^63", "more than 4 segments"],
@@ -42,7 +42,7 @@ PROPS = {
         "outside": ["more than 3 ordered patterns per method in one step harness"],
     },
     "C09": {
-        "mirsym": ["teardown", "drop_flags", "teardown_wrappers"],
+        "mirsym": ["teardown", "drop_flags", "teardown_wrappers", "delegators", "induce_panic"],
         "bounds": {"quick": "one lifecycle step from an arbitrary state: all values of (original_instance, torn_down, verify_in_drop, panicking(), strong_count (64-bit), thread equality, recorded-error count, per-method error counts); method table M=0..2 (thorough 3)"},
         "assumptions": COMMON_MIR + ["Arc::strong_count, thread::panicking(), ThreadId comparison are environment variables (arbitrary values within their contracts)",
                                      "FnMocker::verify summarised at this level as 'appends n_i >= 0 errors' (decided separately under C03)"],
@@ -61,7 +61,7 @@ PROPS = {
         "outside": ["errors racing from several threads", "message text", "the no_std `panicked` flag"],
     },
     "C07": {
-        "mirsym": ["eval_dyn", "call_path", "generated_forwarding"],
+        "mirsym": ["eval_dyn", "call_path", "generated_forwarding", "delegators"],
         "bounds": {"quick": "the complete decision table of eval_dyn: method table M=0..2 entries with symbolic keys and symbolic called type id x has_default_impl x partial_by_default x fallback mode x scan result {none, pattern 0, pattern 1, error} x responder available; one call from an arbitrary state"},
         "assumptions": COMMON_MIR + ["match_call_pattern / next_responder are replaced by their contracts, which the Kani units c01_scan_first_match, c04_in_order_step, c02_next_responder_step decide on the compiled code"],
         "outside": ["the generated match arms that act on Unmock / CallDefaultImpl (C15/C16)", "argument values (the scan result is symbolic instead)"],
@@ -73,7 +73,7 @@ PROPS = {
         "outside": ["the two compile-time rejections (type checker): ordered patterns only with exact counts, then() only after an exact count"],
     },
     "C18": {
-        "mirsym": ["assembler", "drop_flags", "eval_dyn", "statics", "induce_panic", "construction", "teardown", "delegators"],
+        "mirsym": ["assembler", "drop_flags", "eval_dyn", "statics", "induce_panic", "construction", "teardown", "delegators", "tuples"],
         "bounds": {"quick": "every sequence of <=3 pushes (thorough 4) over 2 (thorough 3) methods; adjacent-swap lemma at every position; Clone::clone data flow; eval_dyn table lookup with symbolic keys"},
         "assumptions": COMMON_MIR + ["BTreeMap modelled as a finite map; iteration order abstracted (no decision in the crate depends on it except the wording of an error message)"],
         "outside": ["generic instantiation distinctness is a property of TypeId (trusted)", "message text"],
@@ -85,7 +85,7 @@ PROPS = {
         "outside": ["the builder refusing at compile time to quantify a non-Clone value (a fact about rustc's type checker)", "real threads racing for the value"],
     },
     "C13": {
-        "mirsym": ["delegators", "chain_schedules"],
+        "mirsym": ["delegators", "chain_schedules", "drop_flags"],
         "bounds": {"quick": "value chain: 2 shared pushes (type of the second symbolic), exclusive push after a shared one followed by a shared one, drop of chains of 0..2 values; thorough: 3 shared pushes; delegation helper accessors as_ref/as_mut: arbitrary instance, helper cell symbolically empty or filled"},
         "assumptions": COMMON_KANI + COMMON_MIR + ["once_cell::sync::OnceCell replaced (cfg(kani) only) by once_cell's own unsync cell behind the same API (Kani cannot compile the std implementation): single-threaded claim"],
         "outside": ["thousands of values (bound: 3)", "concurrent pushes through a shared &Unimock (the cell library is trusted)", "recursive drop of very long chains in push_value_mut (observation in DESIGN section 6)"],
@@ -104,7 +104,7 @@ PROPS = {
         "outside": ["return types outside the family; element counts above 3; nesting depth above 3"],
     },
     "C10": {
-        "mirsym": ["schedules", "call_path", "chain_schedules"],
+        "mirsym": ["schedules", "call_path", "chain_schedules", "induce_panic"],
         "bounds": {"quick": "symbolic schedule (one decision per atomic step) of threads x calls in {2x2, 3x1, 3x2} unordered and {2x2, 3x1} ordered on one shared pattern; thorough: up to 4x2 / 3x3, cross-checked with cvc5",
                    "thorough": "threads x calls in {2x2, 2x3, 3x2, 4x2, 3x3}, both call kinds, z3 and cvc5 must agree"},
         "assumptions": COMMON_MIR + ["sequentially consistent memory (the code uses SeqCst); each atomic operation / lock-protected block is one indivisible step",
@@ -133,7 +133,7 @@ PROPS = {
         "outside": ["recursion depth > 1", "trait shapes outside the family"],
     },
     "C19": {
-        "mirsym": ["call_path", "eval_dyn", "counter_verify", "display_call"],
+        "mirsym": ["call_path", "eval_dyn", "counter_verify", "display_call", "induce_panic", "mismatch_msg", "expected_pattern"],
         "bounds": {"quick": "mismatch positions: the guard-free single-alternative members of pattern family G6 (C06 harnesses, diagnostics on) for all argument values; debug_inputs for 4 method shapes; pattern text/location for 3 invocations; which pattern index / operands an error names: E1 units"},
         "assumptions": COMMON_KANI + COMMON_MIR,
         "outside": ["rendered message text (formatting is stubbed under Kani and opaque for E1): wording, separators, '?' glyph", "file!()/line!() values beyond equality with the invocation site"],
